@@ -188,6 +188,14 @@ func (cl *Loader) load(file string) (config map[string]interface{}, err error) {
 				return nil, fmt.Errorf("load import error: %v", err)
 			}
 
+			// nested maps have different key types depending on the file format
+			for k, v := range config {
+				config[k] = stringKeyed(v)
+			}
+			for k, v := range raw {
+				raw[k] = stringKeyed(v)
+			}
+
 			err = mergo.Merge(&config, raw, mergo.WithOverride, mergo.WithAppendSlice, mergo.WithTypeCheck)
 			if err != nil {
 				return nil, err
@@ -298,6 +306,25 @@ func (cl *Loader) unmarshalData(data []byte, ext string) (map[string]interface{}
 	}
 
 	return cm, nil
+}
+
+// stringKeyed converts the map[interface{}]interface{} values produced by the YAML decoder
+// to map[string]interface{}, the shape the JSON and TOML decoders produce
+func stringKeyed(v interface{}) interface{} {
+	switch x := v.(type) {
+	case map[interface{}]interface{}:
+		m := make(map[string]interface{}, len(x))
+		for k, e := range x {
+			m[fmt.Sprint(k)] = stringKeyed(e)
+		}
+		return m
+	case []interface{}:
+		for i, e := range x {
+			x[i] = stringKeyed(e)
+		}
+	}
+
+	return v
 }
 
 func (cl *Loader) decode(cm map[string]interface{}) (*configDefinition, error) {
